@@ -379,3 +379,140 @@ Proof.
     + destruct H as [[-> Hn]|(f' & -> & _)]; cbn [obs_of_result ran_ok_P]; [exact Hn|reflexivity].
   - unfold run_generate_c, from_file_unvalidated. rewrite Eg, Ed. reflexivity.
 Qed.
+
+(* ---------------------------------------------------------------- the build-script oracle *)
+Lemma eff_eqb_build_refl e : eff_eqb_build e e = true.
+Proof. unfold eff_eqb_build. rewrite !String.eqb_refl, !Bool.eqb_reflx. reflexivity. Qed.
+
+(* the model of the build script, project detection included, passes its oracle wherever
+   the oracle does not demand a refusal (that is outside C19-9 and with usable settings) *)
+Theorem oracle_build_model f : build_invalid_detect f = false ->
+  build_ok_detect_b f (obs_of_result (run_build_detect f)) = true.
+Proof.
+  intros Hi. unfold build_ok_detect_b. rewrite Hi. unfold build_invalid_detect in Hi.
+  unfold run_build_detect.
+  destruct (build_root f) as [r|] eqn:Hr; [|reflexivity].
+  apply orb_false_iff in Hi. destruct Hi as [Hk _].
+  pose proof Hk as Hk2. unfold kf_build_fallback_detect in Hk2. rewrite Hr in Hk2.
+  pose proof (build_precedence_at f _ _ Hk2) as Hp.
+  assert (spec_eff_build_detect f = spec_eff_build_at f (build_conf_path f r) (r ++ "typegen.json")) as Hs
+    by (unfold spec_eff_build_detect; rewrite Hr; reflexivity).
+  rewrite Hs, <- Hp. cbv zeta.
+  set (c := build_config_at f (build_conf_path f r) (r ++ "typegen.json")).
+  cbn [eff_of e_project].
+  destruct (fs_get f (project_path c)) as [[| | |]|] eqn:Eg; cbn [obs_of_result]; try rewrite Eg; try reflexivity.
+  apply eff_eqb_build_refl.
+Qed.
+
+(* ---------------------------------------------------------------- the init oracles *)
+Theorem init_ok_b_iff f il bref o after : init_ok_b f il bref o after = true <-> init_ok_P f il bref o after.
+Proof.
+  unfold init_ok_b, init_ok_P. destruct (init_invalid f il); [apply rejected_iff|].
+  destruct (fs_get f (init_target il)) as [[| |[d|]|]|]; try apply rejected_iff.
+  destruct (saveable d); [|apply rejected_iff].
+  assert (forall a, preserved_b 40 bref a && roundtrip_b (init_config il) (load_doc a) = true <->
+                    preserved_P 40 bref a /\ load_doc a = Some (normalise (init_config il))) as Ha.
+  { intros a. rewrite andb_true_iff, preserved_b_iff, roundtrip_b_iff. reflexivity. }
+  destruct o as [u| |e].
+  - split; [discriminate|contradiction].
+  - destruct after as [a|].
+    + rewrite Ha. split; [intros H; exists a; split; [reflexivity|exact H]|intros (a2 & E & H); inversion E; subst; exact H].
+    + split; [discriminate|intros (a2 & E & _); discriminate E].
+  - destruct after as [a|].
+    + rewrite Ha. split; [intros H; exists a; split; [reflexivity|exact H]|intros (a2 & E & H); inversion E; subst; exact H].
+    + split; [discriminate|intros (a2 & E & _); discriminate E].
+Qed.
+
+Theorem init_file_ok_b_iff f il force o after :
+  init_file_ok_b f il force o after = true <-> init_file_ok_P f il force o after.
+Proof.
+  unfold init_file_ok_b, init_file_ok_P. cbv zeta. destruct (init_invalid f il); [apply rejected_iff|].
+  destruct (fs_exists f (or_else (i_output il) "tauri.conf.json") && negb force); [apply rejected_iff|].
+  destruct o as [u| |e].
+  - rewrite andb_true_iff, negb_true_iff. reflexivity.
+  - destruct after as [a|].
+    + rewrite flat_roundtrip_b_iff. split; [intros H; exists a; split; [reflexivity|exact H]|intros (a2 & E & H); inversion E; subst; exact H].
+    + split; [discriminate|intros (a2 & E & _); discriminate E].
+  - destruct after as [a|].
+    + rewrite flat_roundtrip_b_iff. split; [intros H; exists a; split; [reflexivity|exact H]|intros (a2 & E & H); inversion E; subst; exact H].
+    + split; [discriminate|intros (a2 & E & _); discriminate E].
+Qed.
+
+(* the generation that follows a successful save of init is never refused: its settings
+   were validated against the same paths, and writing a document removes no path *)
+Lemma fs_exists_put f t n p : fs_exists f p = true -> fs_exists (fs_put f t n) p = true.
+Proof.
+  unfold fs_exists. destruct (String.eqb_spec (norm p) (norm t)) as [E|Hn].
+  - intros _. unfold fs_get, fs_put. rewrite E. rewrite lookup_insert_same. reflexivity.
+  - rewrite (fs_get_put_other f t p n Hn). exact (fun H => H).
+Qed.
+
+Lemma init_generation_runs f il t n : validate f (init_config il) = None ->
+  exists e f', (run_generate (fs_put f t n) (init_flags il) = RNoCommands e f' \/ run_generate (fs_put f t n) (init_flags il) = RRun e f').
+Proof.
+  intros Hv. unfold run_generate. set (f1 := fs_put f t n).
+  set (c := apply_flags (init_flags il) (search f1 cands)).
+  assert (validate f1 c = None) as ->.
+  { unfold validate in *. change (validation_library c) with (init_lib il). change (project_path c) with (init_project il).
+    cbn [init_config validation_library project_path] in Hv.
+    destruct (lib_ok (init_lib il)); [|discriminate].
+    destruct (fs_exists f (init_project il)) eqn:Ee; [|discriminate].
+    unfold f1. rewrite (fs_exists_put f t n _ Ee). reflexivity. }
+  destruct (fs_get f1 (project_path c)) as [[| | |]|]; eexists; eexists; try (left; reflexivity). right. reflexivity.
+Qed.
+
+Lemma doc_at_result_fs r t :
+  doc_at r t = match fs_get (result_fs r) t with Some (NDoc (Some d)) => Some d | _ => None end.
+Proof. destruct r; reflexivity. Qed.
+
+(* init -o <standalone file> in the model passes its oracle for every file system, flag set and force *)
+Theorem oracle_init_file_model f il force :
+  norm (init_generated il) <> norm (or_else (i_output il) "tauri.conf.json") ->
+  init_file_ok_b f il force (obs_of_result (run_init_file f il force))
+    (doc_at (run_init_file f il force) (or_else (i_output il) "tauri.conf.json")) = true.
+Proof.
+  intros Hn. apply init_file_ok_b_iff. unfold init_file_ok_P. cbv zeta.
+  destruct (init_invalid f il) eqn:Hi.
+  { destruct (init_file_reject_first f il force Hi) as [->|[e ->]]; reflexivity. }
+  destruct (fs_exists f (or_else (i_output il) "tauri.conf.json") && negb force) eqn:He.
+  { unfold run_init_file. rewrite He. reflexivity. }
+  destruct (init_writable f (or_else (i_output il) "tauri.conf.json")) eqn:Hw.
+  - destruct (init_file_document f il force Hi He Hw Hn) as [Hd Hr].
+    assert (validate f (init_config il) = None) as Hv.
+    { destruct (validate f (init_config il)) eqn:E; [|reflexivity].
+      assert (init_invalid f il = true) by (apply init_invalid_validate; congruence). congruence. }
+    assert (doc_at (run_init_file f il force) (or_else (i_output il) "tauri.conf.json") = Some (flat_json (init_config il))) as Hdoc.
+    { rewrite doc_at_result_fs, Hd. reflexivity. }
+    rewrite Hdoc. unfold run_init_file. rewrite He, Hv, Hw.
+    destruct (init_generation_runs f il (or_else (i_output il) "tauri.conf.json") (NDoc (Some (flat_json (init_config il)))) Hv)
+      as (e & f' & [->| ->]); cbn [obs_of_result]; eexists; (split; [reflexivity|exact Hr]).
+  - destruct (init_file_unwritable f il force Hw) as [->|[e ->]]; cbn [obs_of_result]; split; reflexivity.
+Qed.
+
+(* init on a tauri.conf.json target in the model passes its oracle (the reference reading
+   being the document itself) *)
+Theorem oracle_init_model f il :
+  norm (init_generated il) <> norm (init_target il) ->
+  forall bref, (forall d, fs_get f (init_target il) = Some (NDoc (Some d)) -> bref = d) ->
+  init_ok_b f il bref (obs_of_result (run_init f il)) (doc_at (run_init f il) (init_target il)) = true.
+Proof.
+  intros Hn bref Hb. apply init_ok_b_iff. unfold init_ok_P.
+  destruct (init_invalid f il) eqn:Hi.
+  { destruct (init_reject_first f il Hi) as [e ->]. reflexivity. }
+  assert (validate f (init_config il) = None) as Hv.
+  { destruct (validate f (init_config il)) eqn:E; [|reflexivity].
+    assert (init_invalid f il = true) by (apply init_invalid_validate; congruence). congruence. }
+  destruct (fs_get f (init_target il)) as [[| |[d|]|]|] eqn:Eg;
+    try (unfold run_init; rewrite Hv, Eg; reflexivity).
+  rewrite (Hb d eq_refl).
+  destruct (save_doc (init_config il) d) as [d'|] eqn:Es.
+  - assert (saveable d = true) as ->.
+    { destruct (saveable d) eqn:E; [reflexivity|]. apply (save_refused_iff (init_config il)) in E. congruence. }
+    pose proof (init_document f il d d' Hi Eg Es Hn) as Hd.
+    assert (doc_at (run_init f il) (init_target il) = Some d') as Hdoc.
+    { rewrite doc_at_result_fs, Hd. reflexivity. }
+    rewrite Hdoc. unfold run_init. rewrite Hv, Eg, Es.
+    destruct (init_generation_runs f il (init_target il) (NDoc (Some d')) Hv) as (e & f' & [->| ->]); cbn [obs_of_result];
+      exists d'; (split; [reflexivity|]); (split; [apply preserved_b_iff; exact (oracle_preserved_model 40 _ d d' Es)|exact (roundtrip _ d d' Es)]).
+  - apply (save_refused_iff (init_config il)) in Es as Hs. rewrite Hs. unfold run_init. rewrite Hv, Eg, Es. reflexivity.
+Qed.
